@@ -85,6 +85,14 @@ def run_C09(ctx):
     drive_and_validate(ctx, [{"driver": "C09", "n": sz(ctx, 1600, 60000), "probes": 40}])
 
 
+def run_C05(ctx):
+    drive_and_validate(ctx, [{"driver": "C05", "n": sz(ctx, 1600, 60000), "probes": 40}])
+
+
+def run_C10(ctx):
+    drive_and_validate(ctx, [{"driver": "C10", "n": sz(ctx, 1600, 60000), "probes": 40}])
+
+
 PROPS = {
     "C01": {"run": run_C01,
             "rule": "seeded generators (9 families) x 4 clip types x 4 fill rules x 4 entry points; an event is non-trivial "
@@ -128,6 +136,13 @@ PROPS = {
             "rule": "open polylines on the 8-grid (also starting on clip vertices) against closed clip/subject sets x "
                     "Intersection/Union/Difference x 4 fill rules through ExecuteOC (64, D) and the tree form; non-trivial: "
                     "on-line probes with both expected answers"},
+    "C05": {"run": run_C05,
+            "rule": "valid simple polygon sets (outer + holes + island, second polygon, both orientations; validity is "
+                    "re-checked by the spec) x deltas +-0.25..+-40 x 4 join types x miter limits x arc tolerances x "
+                    "InflatePaths64 / ClipperOffset with 1-2 groups; non-trivial: |delta| >= 0.5 and probes inside and outside"},
+    "C10": {"run": run_C10,
+            "rule": "open polylines of 1..6 points (duplicates, collinear runs) x 4 end types x 4 join types x deltas 0.5..15; "
+                    "non-trivial: probes inside and outside the stroke"},
     "C02": {"run": run_C02,
             "rule": "as C01 with preserve-collinear / reverse-solution toggled; non-trivial as C01"},
 }
